@@ -1025,6 +1025,28 @@ fn run_history(id: u64, rng: &mut Rng, blocks: u64) -> (Hist, Address, Address) 
         c.boundary();
     }
     if c.h.aborted.is_none() { c.observe(true); }
+    // end game: the last ledger block ages to the edge of the window (W-1 empty blocks on top), a commit exactly
+    // then, and at once the deepest reorg the engine admits: below that block. The ledger must be the one as of
+    // the target block (what no block of the surviving chain minted or burned is not there).
+    if c.h.aborted.is_none() && id % 3 != 2 {
+        let b = c.height();
+        if b >= c.base_h + 1 && c.max_ever <= b + sim::W - 1 {
+            let n = sim::W - 1;
+            let out = c.run.step(&Op::Mine { n, ts: c.block_ts + 1 }).clone();
+            if !out.status.is_ok() { c.h.aborted = Some(format!("mine answered {:?}", out.status)); return (c.h, ctl, indexer); }
+            for _ in 0..n { c.block_done(); }
+            let out = c.run.step(&Op::Commit).clone();
+            if !out.status.is_ok() { c.h.aborted = Some(format!("commit answered {:?}", out.status)); return (c.h, ctl, indexer); }
+            c.h.log.push("commit (end game)".into());
+            let h = c.height();
+            let out = c.run.step(&Op::Reorg(b - 1)).clone();
+            c.h.log.push(format!("reorg({}) at height {} (end game: deepest admissible, right after a commit) -> {}", b - 1, h, out.status.class()));
+            if !out.status.is_ok() { c.h.aborted = Some(format!("reorg({}) at {} answered {:?}", b - 1, h, out.status)); return (c.h, ctl, indexer); }
+            c.count("end_game_deepest_reorg_after_commit");
+            c.rolled_back(h);
+            c.observe(true);
+        }
+    }
     (c.h, ctl, indexer)
 }
 
